@@ -44,6 +44,10 @@ type vhwsCase struct {
 	ID     string     `json:"id"`
 	Dirs   [2]vhwsDir `json:"dirs"`   // 0: client -> server, 1: server -> client
 	Closer int        `json:"closer"` // side performing its Tail: 0 client, 1 server
+	// StallMs > 0: backpressure probe instead of the scripted directions - the client writes StallTotal bytes in 256 KiB
+	// writes while the server does not read at all for StallMs, then reads everything
+	StallMs    int `json:"stall_ms"`
+	StallTotal int `json:"stall_total"`
 }
 
 type vhwsInput struct {
@@ -72,7 +76,17 @@ type vhwsDirOut struct {
 	Phase1OK bool        `json:"phase1_ok"` // the reader saw all of phase 1 before the barrier expired
 }
 
+type vhwsStallOut struct {
+	Written  int    `json:"written"`
+	WriteErr string `json:"write_err"`
+	Read     int    `json:"read"`
+	ReadErr  string `json:"read_err"`
+	Intact   bool   `json:"intact"`
+	Ms       int64  `json:"ms"`
+}
+
 type vhwsCaseOut struct {
+	Stall *vhwsStallOut `json:"stall,omitempty"`
 	ID    string        `json:"id"`
 	Panic string        `json:"panic"`
 	Dirs  [2]vhwsDirOut `json:"dirs"`
@@ -310,6 +324,58 @@ func vhwsReader(c *Conn, d vhwsDir, untilPhase1 bool, out *vhwsDirOut, phase1 ch
 	}
 }
 
+// vhwsStall: a slow reader is backpressure, not a failure - every byte still arrives, in order, and no Write fails
+func vhwsStall(cli, srv *Conn, stallMs, total int) *vhwsStallOut {
+	res := &vhwsStallOut{Intact: true}
+	start := time.Now()
+	pat := func(off int) byte { return byte((off*131 + off>>8) & 0xff) }
+	wdone := make(chan struct{})
+	go func() {
+		defer close(wdone)
+		chunk := 256 * 1024
+		for res.Written < total {
+			n := chunk
+			if total-res.Written < n {
+				n = total - res.Written
+			}
+			b := make([]byte, n)
+			for i := range b {
+				b[i] = pat(res.Written + i)
+			}
+			m, err := cli.Write(b)
+			res.Written += m
+			if err != nil {
+				res.WriteErr = err.Error()
+				return
+			}
+		}
+		_ = cli.Close()
+	}()
+	time.Sleep(time.Duration(stallMs) * time.Millisecond)
+	buf := make([]byte, 65536)
+	for {
+		_ = srv.SetReadDeadline(time.Now().Add(20 * time.Second))
+		n, err := srv.Read(buf)
+		for i := 0; i < n; i++ {
+			if buf[i] != pat(res.Read+i) {
+				res.Intact = false
+			}
+		}
+		res.Read += n
+		if err != nil {
+			res.ReadErr = vhwsClass(err)
+			break
+		}
+	}
+	select {
+	case <-wdone:
+	case <-time.After(20 * time.Second):
+		res.WriteErr = "writer still blocked 20 s after the reader finished"
+	}
+	res.Ms = time.Since(start).Milliseconds()
+	return res
+}
+
 func vhwsRunCase(c vhwsCase) (out vhwsCaseOut) {
 	out.ID = c.ID
 	for d := 0; d < 2; d++ {
@@ -348,6 +414,11 @@ func vhwsRunCase(c vhwsCase) (out vhwsCaseOut) {
 		return
 	}
 	defer sconn.Close()
+
+	if c.StallMs > 0 {
+		out.Stall = vhwsStall(cli, sconn, c.StallMs, c.StallTotal)
+		return
+	}
 
 	sides := [2]vhwsSide{{conn: cli, isClient: true}, {conn: sconn, isClient: false}}
 	// direction d is written by side d and read by side 1-d
